@@ -6,6 +6,7 @@ import FastorModel.Driver.Config
 import FastorModel.Driver.Simd
 import FastorModel.Driver.Footprint
 import FastorModel.Driver.ViewWrite
+import FastorModel.Driver.Linalg
 /-
   `fmodel`: line-protocol driver.  Reads one case per line on stdin, prints the model's observables
   for it.  The harness prints the implementation's observables for the same case in the same format.
@@ -28,6 +29,7 @@ def step (line : String) : String :=
   | "memidx" :: rest => runMemidx (parseKV rest)
   | "aflag" :: rest => runAflag (parseKV rest)
   | "vw" :: rest => runVw (parseKV rest)
+  | "inv" :: rest => runInv (parseKV rest)
   | _ => "bad-op"
 
 partial def loop (h : IO.FS.Stream) (out : IO.FS.Stream) : IO Unit := do
